@@ -969,17 +969,22 @@ func TestCheck(t *testing.T) {
 	rec.Assume("reference: ref/abiref (canonical signatures, Keccak-256 selector/topic, head/tail encoding, event topics and data incl. keccak of the in-place encoding for indexed reference types), written independently of pkg/abi")
 	rec.Assume("not asserted: indexed parameters of type function/fixed/ufixed (decoded from the topic by the library instead of being surfaced raw); a non-anonymous event with zero indexed parameters given zero topics; fixed-point argument values other than small multiples of 1.0 (C02 judges the fixed-point arithmetic); four-byte selector collisions between distinct signatures (none occurs in the generated cases, checked)")
 	k := evid.NewKind(rec, "entry", judge)
+	cpool := evid.NewPool(rec, "concurrent", judge, 64)
 	rec.Corpus(t)
 	t.Run("exhaustive-signatures", func(t *testing.T) { sweepSignatures(t, rec, k) })
 	rec.Rapid(t, "entries", rec.N(8000, 20000), func(rt *rapid.T) {
 		c, ty, extra := genCase(rt)
 		nt, cl := classes(&c, ty)
+		cpool.Offer(c)
+
 		k.Check(rt, c, nt, append(cl, extra...)...)
 	})
+	cpool.Run(t, 8, 3, 16)
 }
 
 func TestReplay(t *testing.T) {
 	rec := evid.Start("C12", rule)
 	evid.NewKind(rec, "entry", judge)
+	evid.NewPool(rec, "concurrent", judge, 0)
 	rec.Replay(t)
 }
